@@ -57,7 +57,7 @@ def find_mid(sender, data, delivered_count):
 class Pair(object):
     """Two controllers with one established data link connection A(client) <-> B(server)."""
 
-    def __init__(self, rwA, rwB, miuA, miuB, linkA, linkB, agfA, agfB):
+    def __init__(self, rwA, rwB, miuA, miuB, linkA, linkB, agfA, agfB, v0=0):
         A = llc_mod.LogicalLinkController(miu=linkA, agf=agfA, sec=False)
         B = llc_mod.LogicalLinkController(miu=linkB, agf=agfB, sec=False)
         A.cfg["send-miu"], B.cfg["send-miu"] = linkB, linkA
@@ -95,6 +95,12 @@ class Pair(object):
                           lmiuB=B.cfg["send-miu"], agfA=bool(agfA), agfB=bool(agfB))
         if a.send_win != b.recv_win or b.send_win != a.recv_win:
             raise HarnessError("window exchange mismatch %s %s" % (a, b))
+        if v0:
+            # start the conversation as if v0 messages had been exchanged and acknowledged in both directions
+            # (all four state variables of both ends at v0): short histories then cross the modulo-16 wrap
+            for d in (a, b):
+                d.send_cnt = d.send_ack = d.recv_cnt = d.recv_ack = v0 % 16
+            self.const["v0"] = v0 % 16
 
     @staticmethod
     def _wait(cond, t=5.0):
@@ -322,6 +328,106 @@ def run_one(seed, steps, with_close, cfg=None):
 
 
 # ------------------------------------------------------------------------------------------------
+EXH_OPS = ("sA", "sB", "rA", "rB", "cA", "cB", "dA", "dB", "bA")
+
+
+def exh_apply(P, op):
+    """apply one op of the bounded-exhaustive alphabet; False if it is not enabled (sequence pruned)"""
+    k, e = op[0], op[1]
+    x = P.end(e)
+    if k == "s":
+        P.send(e, 1)
+    elif k == "r":
+        if not P.can_recv(e):
+            return False
+        P.recv(e)
+    elif k == "c":
+        if len(P.wire[e]) >= 2:
+            return False
+        P.broken = P.collect(e)
+    elif k == "d":
+        if not P.wire[e]:
+            return False
+        P.deliver(e)
+    elif k == "b":
+        P.set_busy(e, not x.dlc.mode.RECV_BUSY)
+    return True
+
+
+def exh_prefix(job):
+    """all enabled op sequences of length `depth` that start with `prefix`, executed on the real code (one fresh
+    connection per sequence); returns the traces"""
+    cfg, prefix, depth, tag = job
+    out = []
+
+    def run_seq(seq):
+        P = Pair(**cfg)
+        try:
+            for op in seq:
+                if not exh_apply(P, op):
+                    return None, P
+                if P.broken:
+                    break
+        except HarnessError:
+            raise
+        except Exception as ex:
+            P.ev.append(dict(e=seq[-1][1], a="Raise", exc=type(ex).__name__, msg=str(ex)[:80], post=P.end(seq[-1][1]).snap()))
+        return P, P
+
+    def rec(seq):
+        if len(seq) == depth:
+            P, _ = run_seq(seq)
+            if P is not None:
+                out.append(dict(id="%s.%s" % (tag, "".join(seq)), const=P.const, ev=P.ev))
+            return
+        # prune: a prefix that is not executable has no executable extension
+        if seq:
+            P, _ = run_seq(seq)
+            if P is None:
+                return
+            if P.broken:
+                out.append(dict(id="%s.%s" % (tag, "".join(seq)), const=P.const, ev=P.ev))
+                return
+        for op in EXH_OPS:
+            rec(seq + [op])
+    rec(list(prefix))
+    return out
+
+
+def exhaustive_stage(ck, quick, seed):
+    """bounded-exhaustive short histories on the real code: every enabled sequence of `depth` operations over
+    {send A/B (1 octet), recv A/B, collect A/B, deliver A/B, toggle busy A}, started at sequence numbers 0 and just
+    below the modulo-16 wrap, for windows 1 and 2; every execution validated by Trace_LlcpDlc"""
+    import multiprocessing as mp
+    depth = 4 if quick else 6
+    jobs = []
+    for v0 in (0, 14, 15):
+        for rw in (1, 2):
+            cfg = dict(rwA=rw, rwB=rw, miuA=128, miuB=128, linkA=128, linkB=128, agfA=True, agfB=(v0 != 14), v0=v0)
+            for a in EXH_OPS:
+                for b in EXH_OPS:
+                    jobs.append((cfg, (a, b), depth, "x%d.%d" % (v0, rw)))
+    traces = []
+    with mp.Pool(14) as pool:
+        for part in pool.imap_unordered(exh_prefix, jobs, chunksize=2):
+            traces.extend(part)
+    verdicts, st = tlc.validate_traces("Trace_LlcpDlc.tla", "Trace_LlcpDlc.cfg", PID, traces, shards=16,
+                                       timeout=900 if quick else 3000)
+    acc = 0
+    for tr in traces:
+        v = verdicts[tr["id"]]
+        if v[0] == "ACCEPT":
+            acc += 1
+            continue
+        line, act, why = v[1], v[2], v[3]
+        ev = tr["ev"][line - 1]
+        ck.violation(classify(tr, line, act, why), "short history %s rejected at event %d (%s): %s ; event=%s" % (
+            tr["id"], line, act, json.dumps(why)[:600], json.dumps(ev)[:400]),
+            replay=dict(kind="exh", cfg={k: v for k, v in tr["const"].items()}, seq=tr["id"].split(".")[-1], id=tr["id"]))
+    ck.cover(exhaustive_short_histories=len(traces), exhaustive_depth=depth, traces_validated_against_impl=acc,
+             trace_events=sum(len(t["ev"]) for t in traces))
+
+
 def mutate_for_selftest(tr):
     """binding self-test: corrupt one logged field / drop one event -> must be rejected."""
     out = []
@@ -402,6 +508,7 @@ def run(tier, seed):
             replay=dict(kind="trace", **cfgs[tr["id"]]))
     ck.cover(traces_validated_against_impl=acc, trace_events=nev, trace_states=st["states"],
              binding_selftest="corrupted N(R) and dropped Deliver both rejected")
+    exhaustive_stage(ck, quick, seed)
     threaded_stage(ck, quick, seed)
     from bind import c05conn
     c05conn.stage(ck, quick, seed, tlc, PID)
@@ -504,6 +611,18 @@ def replay(rep, args):
         v, _ = tlc.validate_traces("Trace_LlcpConn.tla", cfgp, PID + "_replay", [dict(id=tr["id"], const=tr["const"], ev=tr["ev"])], shards=1)
         print(v)
         if v[tr["id"]][0] != "ACCEPT":
+            print("VIOLATION property=%s replay=%s" % (PID, args.replay))
+            return 1
+        return 0
+    if r.get("kind") == "exh":
+        c = r["cfg"]
+        cfg = dict(rwA=c["rwA"], rwB=c["rwB"], miuA=c["rmiuA"], miuB=c["rmiuB"], linkA=c["lmiuB"], linkB=c["lmiuA"],
+                   agfA=c["agfA"], agfB=c["agfB"], v0=c.get("v0", 0))
+        seq = [r["seq"][i:i + 2] for i in range(0, len(r["seq"]), 2)]
+        trs = [t for t in exh_prefix((cfg, tuple(seq[:2]), len(seq), "replay")) if t["id"].endswith(r["seq"])]
+        verdicts, _ = tlc.validate_traces("Trace_LlcpDlc.tla", "Trace_LlcpDlc.cfg", PID + "_replay", trs, shards=1)
+        print(verdicts)
+        if not trs or any(v[0] != "ACCEPT" for v in verdicts.values()):
             print("VIOLATION property=%s replay=%s" % (PID, args.replay))
             return 1
         return 0
